@@ -59,6 +59,7 @@ type Contract struct {
 	MayPanic bool // extern: callee may panic unless requires hold (informational)
 	Frame    bool // func: check ghost frame (default true)
 	Overflow bool
+	Fresh    []string // results that are newly allocated objects (or nil)
 	Wraps    bool // integer arithmetic of this function wraps (no overflow obligations)
 	FsPath   *SX    // extern: expression (over formals) giving the file-system path this primitive acts on
 	FsOp     string // extern: kind of file-system operation (read, create, write, rename-from, ...)
@@ -325,6 +326,8 @@ func (c *Contracts) loadContract(file string, f *SX) error {
 			ct.Overflow = true
 		case "wraps":
 			ct.Wraps = true
+		case "fresh":
+			ct.Fresh = append(ct.Fresh, atoms(e)[1:]...)
 		case "fspath":
 			ct.FsPath = e.List[1]
 			if len(e.List) > 2 {
@@ -412,6 +415,9 @@ func (c *Contracts) expandInst(file string, d *Decl, x *SX, err *error) *SX {
 	if x.Head() == "inst" {
 		name := x.List[1].Atom
 		l := c.DeclBy["lemma:"+name]
+		if l == nil {
+			l = c.DeclBy["axiom:"+name]
+		}
 		if l == nil {
 			*err = errAt(file, x, "inst: unknown lemma %q (must be declared earlier)", name)
 			return x
